@@ -21,7 +21,7 @@ theorem addFunctions_spec (base : String) (acc : InjAcc) (fs : List SFunc) :
     with its receiver, parameters, return type and convention unchanged, forwarding to the original -/
 theorem every_public_reexposed (base : String) (used : List String) (fs : List SFunc) (f : SFunc)
     (hf : f ∈ fs) (hp : f.vis = .pub) :
-    ∃ g ∈ specInject base used fs, g.body = .field base f.name ∧ (g.name = f.name ∨ g.name = base ++ "_" ++ f.name)
+    ∃ g ∈ specInject base used fs, g.body = .field base f.name ∧ (g.name = f.name ∨ g.name = renamed base f.name)
       ∧ g.args = f.args ∧ g.ret = f.ret ∧ g.cc = f.cc ∧ g.vis = .pub :=
   every_public_reexposed_lem base used fs f hf hp
 
@@ -66,7 +66,7 @@ theorem conversions_emitted (reg : Registry) (path : Path) (size align : Nat) (v
     ∃ pre, Emit.typeItems reg path size align vis td = pre ++
       (hier.flatMap fun (fp, ty) =>
         if occurrences hier ty > 1 then
-          [Sexp.mk "conflict" [.str ("_CONFLICTING_" ++ Emit.upper name ++ "_" ++ "_".intercalate (fp.map Emit.upper))]]
+          [Sexp.mk "conflict" [.str ("_CONFLICTING_" ++ Emit.upper (unraw name) ++ "_" ++ "_".intercalate (fp.map fun s => Emit.upper (unraw s)))]]
         else
           [Sexp.mk "asref" [.str name, .str (Emit.rtyStr ty), Sexp.mk "fp" (fp.map .str)],
            Sexp.mk "asmut" [.str name, .str (Emit.rtyStr ty), Sexp.mk "fp" (fp.map .str)]]) ++
